@@ -150,7 +150,7 @@ def strategy():
     op = st.tuples(st.integers(0, 11), worldops.packed(16 ** 3)).map(decode_op)
     twin = st.fixed_dictionaries({
         'ops': worldops.chunked(op, 24), 'ctl_entity': st.integers(0, 15), 'variant': st.integers(0, 2),
-        'shorthand': st.integers(0, len(SHORTHANDS) - 1), 'type': st.integers(0, 7), 'after': st.integers(0, 2),
+        'shorthand': st.integers(0, len(SHORTHANDS) - 1), 'type': st.integers(0, 7), 'after': st.integers(0, 3),
         'valmode': st.integers(0, 2), 'prelife': st.integers(0, 2)})
     proto = st.fixed_dictionaries({
         'types': st.lists(st.integers(0, 5), min_size=1, max_size=5),
@@ -289,6 +289,12 @@ def twin_part(spec, facts):
         A.world.delete_entity(ent)
         B.world.delete_entity(ent)
         facts['entity_pending_deletion'] += 1
+    elif spec['after'] == 3:
+        # the entity the controller knows owns nothing any more (every component removed one by one)
+        for side in (A, B):
+            for c in list(side.world.get_components(ent)):
+                side.world.remove_component(ent, type(c))
+        facts['entity_emptied_before_use'] += 1
     sh = SHORTHANDS[spec['shorthand']]
     if variant == 1 and 'ref' in sh:
         # the plain Controller built by desper.controller() carries no descriptors: use an unattached
